@@ -85,7 +85,7 @@ def _cats(r, driver):
 
 
 # ---------------------------------------------------------------------------
-def judge_response(V, drv, u, cmd, out, result, late, all_values, serial):
+def judge_response(V, drv, u, cmd, out, result, late, all_values, serial, when=None):
     """Compare one returned value with what happened on the bus."""
     kind = out[0] if out else "silent"
     if cmd.response is None:
@@ -103,16 +103,18 @@ def judge_response(V, drv, u, cmd, out, result, late, all_values, serial):
         return
     if kind == "silent" or (kind == "error" and serial):
         if raw is not None:
-            V(_who(raw, all_values, out), "unit %s: %s bus outcome %s but got %s" % (u, cmd, kind, raw),
-              site=kind)
+            c = _who(raw, all_values, out)
+            V(c, "unit %s: %s bus outcome %s but got %s" % (u, cmd, kind, raw),
+              site=kind + ("/" + when(raw) if (when and c == "answer-of-other-command") else ""))
     elif kind == "value":
         if raw is None:
             if not late:
                 V("answer-lost", "unit %s: %s bus answered %d in time but send returned 'no answer'" % (
                     u, cmd, out[1]), site=kind)
         elif raw.error or raw.as_integer != out[1]:
-            V(_who(raw, all_values, out), "unit %s: %s bus answered %d but got %s" % (u, cmd, out[1], raw),
-              site=kind)
+            c = _who(raw, all_values, out)
+            V(c, "unit %s: %s bus answered %d but got %s" % (u, cmd, out[1], raw),
+              site=kind + ("/" + when(raw) if (when and c == "answer-of-other-command") else ""))
     elif kind == "error":
         if raw is None or not raw.error:
             V("framing-error-not-reported", "unit %s: %s garbled answer reported as %s" % (u, cmd, raw),
@@ -124,6 +126,20 @@ def _who(raw, all_values, own):
     if v in all_values and not (own and len(own) > 1 and own[1] == v):
         return "answer-of-other-command"
     return "wrong-answer"
+
+
+def stale_site(rr, u, spec, raw):
+    """For the serial gateways: had the foreign value already reached the host
+    when the victim's command was written (a flush at that moment would have
+    removed it), or did it arrive afterwards (matching by arrival order only)?"""
+    arr = getattr(rr.dev, "answer_arrivals", {}).get(raw.as_integer)
+    t_write = None
+    for s_ in rr.dev.sends:
+        if s_["unit"] == u and (s_.get("bits"), s_.get("value")) == (spec[0], spec[1]):
+            t_write = s_["t_us"]
+    if arr is None or t_write is None:
+        return "unattributed"
+    return "stale-before-write" if arr < t_write else "arrived-after-write"
 
 
 def judge(rr):
@@ -175,7 +191,8 @@ def judge(rr):
             cmd = cmds.mk_cmd(spec)
             o = rec.op.get("outs", {}).get("%d:%d" % (spec[0], spec[1]))
             late = late_by.get((u, spec[0], spec[1]), False)
-            judge_response(V, drv, u, cmd, o, result, late, all_values, serial)
+            when = (lambda raw, u=u, spec=spec: stale_site(rr, u, spec, raw)) if serial else None
+            judge_response(V, drv, u, cmd, o, result, late, all_values, serial, when=when)
     return out
 
 
